@@ -29,7 +29,9 @@ CONSTANTS
                    \* "random": one randomly drawn slot list per send (simulation runs)
     MaxSets,       \* receiver sets that may be created
     RegionLens,    \* lengths of regions (abstract tokens for the harness' table of real lengths)
-    Kinds          \* subset of {"typed", "bytes"}: channel flavours NewChannel may create
+    Kinds,         \* subset of {"typed", "bytes"}: channel flavours NewChannel may create
+    FailSends      \* TRUE: a typed send may also be one whose value's serialisation reports an error after every
+                   \* embedded endpoint/region has been visited (C14 seen from the handles: nothing is retained)
 
 VARIABLES
     H,         \* live handles: set of [id, k, c, o]  (k: "S" | "R" | "M" | "X"; o: owning agent;
@@ -189,12 +191,12 @@ HidOf(x)  == x.id
 \* send(h, value): succeeds exactly when the receiving end still exists somewhere (C09).
 \* Senders and regions are cloned into the message; receivers are moved into it (C04).
 \* When the send fails the embedded receivers are gone with the value (C14).
-SendMsg(a, h, hs, big, entry) ==
+SendMsg(a, h, hs, big, entry, fail) ==
     LET c      == h.c
         slots  == [i \in 1..Len(hs) |-> SlotOf(hs[i])]
         moved  == {hs[i] : i \in {j \in 1..Len(hs) : hs[j].k = "R"}}
         msg    == [tag |-> nextTag, big |-> big, slots |-> slots]
-        ok     == ReceiverExists(c)
+        ok     == ReceiverExists(c) /\ ~fail
     IN /\ H' = H \ moved
        /\ nextTag' = nextTag + 1
        /\ IF ok
@@ -203,14 +205,17 @@ SendMsg(a, h, hs, big, entry) ==
             ELSE Kill({m.c : m \in moved})
        /\ Logged([op |-> entry, a |-> a, h |-> h.id, tag |-> nextTag, big |-> big,
                   slots |-> [i \in 1..Len(hs) |-> [k |-> slots[i].k, h |-> HidOf(hs[i])]],
-                  res |-> IF ok THEN "ok" ELSE "err"])
+                  res |-> IF ok THEN "ok" ELSE "err", fail |-> fail])
        /\ UNCHANGED <<nextH, nextC, ctype, regs, nextR, alive>>
 
-Send(a, h, hs, big) ==
+\* fail = the value's Serialize impl reports an error at its end: the send returns an error, nothing is queued,
+\* receivers that were moved into the value are gone with it, clones made for it are dropped again
+Send(a, h, hs, big, fail) ==
     /\ UNCHANGED <<members, nextX>>
     /\ Free /\ h \in Owned(a) /\ h.k = "S"
     /\ Len(q[h.c]) < MaxQueue
-    /\ SendMsg(a, h, hs, big, "send")
+    /\ fail => (FailSends /\ ctype[h.c] = "typed")
+    /\ SendMsg(a, h, hs, big, "send", fail)
     /\ UNCHANGED phase
 
 \* The handles a received message gives to the receiving agent, numbered in slot order.
@@ -323,7 +328,8 @@ FreeStep ==
             \/ Clone(a, h) \/ Drop(a, h) \/ Read(a, h)
             \/ \E mode \in {"recv", "try", "timeout"} : Recv(a, h, mode)
             \/ h.k = "S" /\ \E big \in BOOLEAN :
-                 \E hs \in SlotChoices(a, h.c) : Send(a, h, hs, big)
+                 \E hs \in SlotChoices(a, h.c) : \E fail \in (IF FailSends THEN BOOLEAN ELSE {FALSE}) :
+                     Send(a, h, hs, big, fail)
        \/ AgentExit(a)
 
 (* Epilogue: identity probes.  After the free phase every remaining sender handle sends one     *)
@@ -350,7 +356,7 @@ Probe ==
          THEN /\ phase' = "drain"
               /\ UNCHANGED <<H, nextH, nextC, ctype, q, rcv, regs, nextR, nextTag, alive, nops, log>>
          ELSE LET h == MinId(ToProbe)
-              IN /\ SendMsg(h.o, h, <<>>, FALSE, "probe")
+              IN /\ SendMsg(h.o, h, <<>>, FALSE, "probe", FALSE)
                  /\ UNCHANGED phase
 
 \* receivers still to be drained: held ones whose last drain result was a message (or none yet)
